@@ -19,6 +19,7 @@ func init() {
 }
 
 func runC17(c *core.Ctx) {
+	runFixtures(c, "nilguard")
 	c.Explain("Structural clauses of C17 decided from source: (R17.1) for every pointer field of a struct that some method assigns nil (the closed mark of keyvalue.file), every dereference of that field in every other method — including promoted fields/methods of the embedded pointer — is dominated by a non-nil test of the field, directly or at every call site of an unexported helper; (R17.2) every type implementing io/fs.File has a closed state: Close writes a receiver field or delegates to an inner handle's Close, and every other exported method tests that field before its first effect or delegates to the inner handle; (R17.3) the failing side of each closed-guard returns an ErrClosed-class error; (R17.4) every store write-back reachable from a File method happens in a transaction that first looks the path up and skips the write when it no longer exists. NOT claimed: independence of offsets between handles over histories (the offset is a per-handle struct field, inventoried only), equality of the error with os.File's for each call.")
 	c.Assume("A6: partial correctness", "closers are not invoked from within other methods of the same handle (checked: no static call to a closer from a sibling method)")
 	c.RuleDoc("R17.1", "nullable pointer field: every dereference guarded by a dominating non-nil test")
